@@ -855,6 +855,21 @@ func (x *Exec) enterLoop(fr *Frame, b *ssa.BasicBlock, li *loopInfo, edges []edg
 		fr.vals[phi] = x.mergePhi(fr, phi, entryEdges, b)
 	}
 	invs := x.loopInvariants(fr, li)
+	// derived invariant of `for i := range slice` loops: -1 <= rangeindex < len
+	// (checked like any other invariant: on entry here, at back edges in backEdge)
+	autoPhi, autoBound := rangeIndexPattern(b, li)
+	if autoPhi != nil {
+		if bv, ok := fr.vals[autoBound]; ok || isConstVal(autoBound) {
+			if !ok {
+				bv = x.operand(fr, se, autoBound)
+			}
+			v := fr.vals[autoPhi].L[0]
+			g := and(app("bvsle", bvLit(^uint64(0), 64), v), app("bvslt", v, bv.L[0]))
+			x.oblige(se, "inv.entry", x.siteName(fmt.Sprintf("%s/loop%d.inv.rangeindex.entry%s", x.prog.relName(x.topFn), li.index, inlineSuffix(fr))), nil, b.Instrs[0].Pos(), g)
+		} else {
+			autoPhi = nil
+		}
+	}
 	for _, inv := range invs {
 		g := x.evalSpecBool(fr, se, fr.entry, inv.Expr, nil)
 		name := fmt.Sprintf("%s/loop%d.inv.%s.entry", x.prog.relName(x.topFn), li.index, inv.Label)
@@ -954,6 +969,14 @@ func (x *Exec) enterLoop(fr *Frame, b *ssa.BasicBlock, li *loopInfo, edges []edg
 		g := x.evalSpecBool(fr, sh, fr.entry, inv.Expr, nil)
 		x.smt.Assert(implies(sh.pc, g))
 	}
+	if autoPhi != nil {
+		bv, ok := fr.vals[autoBound]
+		if !ok {
+			bv = x.operand(fr, sh, autoBound)
+		}
+		v := fr.vals[autoPhi].L[0]
+		x.smt.Assert(implies(sh.pc, and(app("bvsle", bvLit(^uint64(0), 64), v), app("bvslt", v, bv.L[0]))))
+	}
 	return sh
 }
 
@@ -1011,6 +1034,17 @@ func (x *Exec) backEdge(fr *Frame, from *ssa.BasicBlock, li *loopInfo, st *State
 	savedBlock := fr.curBlock
 	fr.curBlock = b
 	defer func() { fr.curBlock = savedBlock }()
+	if autoPhi, autoBound := rangeIndexPattern(b, li); autoPhi != nil {
+		bv, ok := fr.vals[autoBound]
+		if !ok && isConstVal(autoBound) {
+			bv, ok = x.operand(fr, st, autoBound), true
+		}
+		if ok {
+			v := fr.vals[autoPhi].L[0]
+			g := and(app("bvsle", bvLit(^uint64(0), 64), v), app("bvslt", v, bv.L[0]))
+			x.oblige(st, "inv.preserve", x.siteName(fmt.Sprintf("%s/loop%d.inv.rangeindex.preserve@%s%s", x.prog.relName(x.topFn), li.index, x.edgeLabel(from), inlineSuffix(fr))), nil, from.Instrs[len(from.Instrs)-1].Pos(), g)
+		}
+	}
 	for _, inv := range x.loopInvariants(fr, li) {
 		g := x.evalSpecBool(fr, st, fr.entry, inv.Expr, nil)
 		label := x.edgeLabel(from)
@@ -1162,4 +1196,51 @@ func (x *Exec) constVal(c *ssa.Const) Val {
 func (x *Exec) intConst(v int64, t types.Type) Val {
 	w := bvWidth(scalarSort(t))
 	return Val{T: t, L: []string{bvLit(uint64(v), w)}}
+}
+
+func inlineSuffix(fr *Frame) string {
+	if fr.top {
+		return ""
+	}
+	return "~in~" + fr.fn.Name()
+}
+
+func isConstVal(v ssa.Value) bool {
+	_, ok := v.(*ssa.Const)
+	return ok
+}
+
+// rangeIndexPattern recognises the SSA shape of `for i := range s`:
+//   h: k = phi [-1, k+1] #rangeindex; k1 = k + 1; c = k1 < n; if c ...
+// and returns the phi and the bound n (defined outside the loop).
+func rangeIndexPattern(h *ssa.BasicBlock, li *loopInfo) (*ssa.Phi, ssa.Value) {
+	for _, instr := range h.Instrs {
+		phi, ok := instr.(*ssa.Phi)
+		if !ok {
+			break
+		}
+		if phi.Comment != "rangeindex" || bvWidth(scalarSort(phi.Type())) != 64 {
+			continue
+		}
+		for _, u := range *phi.Referrers() {
+			add, ok := u.(*ssa.BinOp)
+			if !ok || add.Op != token.ADD || add.X != phi || add.Block() != h {
+				continue
+			}
+			if c, ok := add.Y.(*ssa.Const); !ok || c.Int64() != 1 {
+				continue
+			}
+			for _, u2 := range *add.Referrers() {
+				cmp, ok := u2.(*ssa.BinOp)
+				if !ok || cmp.Op != token.LSS || cmp.X != add || cmp.Block() != h {
+					continue
+				}
+				if bi, ok := cmp.Y.(ssa.Instruction); ok && li.body[bi.Block()] {
+					continue
+				}
+				return phi, cmp.Y
+			}
+		}
+	}
+	return nil, nil
 }
